@@ -165,6 +165,11 @@ impl Assembler {
             bytes.len()
         );
         self.end = self.end.max(offset + bytes.len() as u64);
+        if bytes.is_empty() {
+            // Nothing to store; in particular, don't record an empty range as received, which
+            // would hide later duplicates from the unordered deduplication below.
+            return Ok(());
+        }
         if let State::Unordered { ref mut recvd } = self.state {
             // Discard duplicate data
             for duplicate in recvd.replace(offset..offset + bytes.len() as u64) {
